@@ -114,7 +114,7 @@ def check(ctx, case):
         k0, k1 = (only[1], only[1] + 1) if (only and only[1] >= 0) else (0, n)   # only = [reader, -1]: every prefix, that reader
         # result on the complete file (reference values for gds_units / gds_timestamp)
         outs = ctx.run(lines[:0] + ["trunc scan %s %s %s %d %d 1 10" % (reader, path, tmp, n, n + 1), "trunc scan %s %s %s %d %d 1 10" % (reader, path, tmp, k0, k1)],
-                       case, timeout=900)
+                       case, timeout=900, hang_inconclusive=True)   # the outer guard; hangs are judged per call in the child
         full_rows = outs[0]["rows"]
         if not full_rows or full_rows[0][1] != 0:
             raise Violation("%s on the COMPLETE file did not return normally: %s" % (reader, full_rows), dict(case, only=[reader, n]), None, full_rows, lines)
